@@ -1,50 +1,52 @@
 --------------------------- MODULE EndpointPolicyP ---------------------------
 (* C13 - property specification (the statement of properties.jsonl, executable).           *)
 (*                                                                                          *)
-(* Declarations D: a set of records [m, p, r, g]                                            *)
+(* Declarations D: a set of records [m, p, r, g, re, ge]                                    *)
 (*     m method, p pattern (UrlPattern: <<host, path>>), r / g = name of the remedy /       *)
-(*     diagnosis declared there (names identify the declaration).                           *)
+(*     diagnosis declared there (names identify the declaration), re / ge = that remedy /   *)
+(*     diagnosis is declared AND enabled.  A declaration whose plugins are all disabled, or  *)
+(*     that declares no plugin at all, is still a declared endpoint: it takes part in       *)
+(*     "most specific declared pattern", it just has nothing to apply.                      *)
 (* Request (m, u).  Observed outcome: [sel, dsel, lk]; sel / dsel = the scoped remedies /    *)
 (* diagnoses the dispatcher selected: sets of records [r, norm, params]                      *)
 (*     r name, norm = reported normalised URL (text), params = set of <<name, value>>;       *)
 (* lk = [match, norm, params]: what the policy tree's Lookup reports for the URL alone.       *)
 (*                                                                                          *)
 (* Accept(D, m, u, out) is TRUE exactly for the outcomes the statement permits:             *)
-(*   OnlyOwn   every selected name is declared for method m on a pattern matching u         *)
-(*   BestWins  the selected names are those of the most specific matching pattern. The      *)
-(*             statement does not say whether "most specific" ranges over the patterns      *)
-(*             declared for the request's method or over all declared patterns (then a      *)
-(*             more specific pattern declared for another method only hides the less        *)
-(*             specific one): both readings are accepted.                                   *)
+(*   OnlyOwn   every selected name is declared (enabled) for method m on a pattern          *)
+(*             matching u                                                                   *)
+(*   BestWins  the selected names are the enabled ones of the most specific matching        *)
+(*             pattern. The statement does not say whether "most specific" ranges over the  *)
+(*             patterns declared for the request's method or over all declared patterns     *)
+(*             (then a more specific pattern declared for another method only hides the     *)
+(*             less specific one): both readings are accepted.                              *)
 (*   NormOK    the reported normalised URL is (the text of) a declared pattern matching u   *)
 (*   ParamsOK  the reported path parameters are u's segments at that pattern's parameters   *)
+(* Matching is UrlPattern!MatchesWX: a wildcard written as a path segment stands for path   *)
+(* segments only ("a.com/*" does not match "a.com.evil.net/x").                              *)
 (* Whether "a.com/x/*" matches "a.com/x" (wildcard facing no segment) is not fixed by the   *)
 (* statement: an outcome is accepted if it is right under either reading (minTail 0 or 1),  *)
 (* consistently for the whole outcome.                                                      *)
 (* Order independence is a relation between outcomes (EndpointPolicyTrace / MC_C13).        *)
 EXTENDS UrlPattern
 
-DeclsFor(D, m, u, mt)   == {d \in D : d.m = m /\ MatchesW(d.p, u, mt)}
-PatsMatching(D, u, mt)  == {d.p : d \in {e \in D : MatchesW(e.p, u, mt)}}
+M(p, u, mt) == MatchesWX(p, u, mt)
+
+DeclsFor(D, m, u, mt)   == {d \in D : d.m = m /\ M(d.p, u, mt)}
+PatsMatching(D, u, mt)  == {d.p : d \in {e \in D : M(e.p, u, mt)}}
 
 \* winners under the two readings of "most specific declared pattern"
 WinAll(D, m, u, mt) == {d \in DeclsFor(D, m, u, mt) : d.p \in MostSpecific(PatsMatching(D, u, mt), u)}
 WinOwn(D, m, u, mt) == LET O == DeclsFor(D, m, u, mt) IN {d \in O : d.p \in MostSpecific({e.p : e \in O}, u)}
 
-OnlyOwn(D, m, u, mt, names, nameOf(_)) == names \subseteq {nameOf(d) : d \in DeclsFor(D, m, u, mt)}
+\* the names a set of declarations contributes: remedies ("r") or diagnoses ("g"), enabled ones only
+Names(S, k) == IF k = "r" THEN {d.r : d \in {e \in S : e.re}} ELSE {d.g : d \in {e \in S : e.ge}}
 
-BestWins(D, m, u, mt, names, nameOf(_)) ==
-    \/ names = {nameOf(d) : d \in WinAll(D, m, u, mt)}
-    \/ names = {nameOf(d) : d \in WinOwn(D, m, u, mt)}
-
-NormOK(D, u, mt, s)   == \E d \in D : Render(d.p) = s.norm /\ MatchesW(d.p, u, mt)
-ParamsOK(D, u, mt, s) == \E d \in D : Render(d.p) = s.norm /\ MatchesW(d.p, u, mt) /\ s.params = ParamPairs(d.p, u)
+NormOK(D, u, mt, s)   == \E d \in D : Render(d.p) = s.norm /\ M(d.p, u, mt)
+ParamsOK(D, u, mt, s) == \E d \in D : Render(d.p) = s.norm /\ M(d.p, u, mt) /\ s.params = ParamPairs(d.p, u)
 
 \* what EndpointPolicyTree.Lookup itself reports for the URL (whatever the method): [match, norm, params]
 LookupOK(D, u, mt, lk) == lk.match => ParamsOK(D, u, mt, lk)
-
-RName(d) == d.r
-GName(d) == d.g
 
 AcceptW(D, m, u, out, mt) ==
     LET own  == DeclsFor(D, m, u, mt)
@@ -53,11 +55,11 @@ AcceptW(D, m, u, out, mt) ==
         rn   == {s.r : s \in out.sel}
         gn   == {s.r : s \in out.dsel}
     IN
-    /\ rn \subseteq {d.r : d \in own}                            \* OnlyOwn
-    /\ rn = {d.r : d \in wa} \/ rn = {d.r : d \in wo}             \* BestWins
-    /\ \A s \in out.sel : ParamsOK(D, u, mt, s)                   \* NormOK /\ ParamsOK
-    /\ gn \subseteq {d.g : d \in own}
-    /\ gn = {d.g : d \in wa} \/ gn = {d.g : d \in wo}
+    /\ rn \subseteq Names(own, "r")                                 \* OnlyOwn
+    /\ rn = Names(wa, "r") \/ rn = Names(wo, "r")                   \* BestWins
+    /\ \A s \in out.sel : ParamsOK(D, u, mt, s)                     \* NormOK /\ ParamsOK
+    /\ gn \subseteq Names(own, "g")
+    /\ gn = Names(wa, "g") \/ gn = Names(wo, "g")
     /\ \A s \in out.dsel : NormOK(D, u, mt, s)
     /\ LookupOK(D, u, mt, out.lk)
 
@@ -82,20 +84,26 @@ ShadowedBy(b, q, u) ==
               /\ IsLit(Parts(b)[j].v) => Parts(q)[j].v = Parts(b)[j].v
 Shadowed(b, D, u) == \E q \in {d.p : d \in D} : ShadowedBy(b, q, u)
 
-ShadowWins(D, m, u, mt, names, nameOf(_)) ==
+ShadowWins(D, m, u, mt, names, k) ==
     /\ \/ \E b \in MostSpecific(PatsMatching(D, u, mt), u) : Shadowed(b, D, u)
        \/ \E b \in MostSpecific({e.p : e \in DeclsFor(D, m, u, mt)}, u) : Shadowed(b, D, u)
     /\ \/ names = {}
-       \/ \E q \in PatsMatching(D, u, mt) : names = {nameOf(d) : d \in {e \in DeclsFor(D, m, u, mt) : e.p = q}}
+       \/ \E q \in PatsMatching(D, u, mt) : names = Names({e \in DeclsFor(D, m, u, mt) : e.p = q}, k)
 
 AcceptShadowW(D, m, u, out, mt) ==
-    /\ OnlyOwn(D, m, u, mt, {s.r : s \in out.sel}, RName)
-    /\ \/ BestWins(D, m, u, mt, {s.r : s \in out.sel}, RName)
-       \/ ShadowWins(D, m, u, mt, {s.r : s \in out.sel}, RName)
-    /\ \A s \in out.sel : NormOK(D, u, mt, s) /\ ParamsOK(D, u, mt, s)
-    /\ OnlyOwn(D, m, u, mt, {s.r : s \in out.dsel}, GName)
-    /\ \/ BestWins(D, m, u, mt, {s.r : s \in out.dsel}, GName)
-       \/ ShadowWins(D, m, u, mt, {s.r : s \in out.dsel}, GName)
+    LET own  == DeclsFor(D, m, u, mt)
+        wa   == WinAll(D, m, u, mt)
+        wo   == WinOwn(D, m, u, mt)
+        rn   == {s.r : s \in out.sel}
+        gn   == {s.r : s \in out.dsel}
+    IN
+    /\ rn \subseteq Names(own, "r")
+    /\ \/ rn = Names(wa, "r") \/ rn = Names(wo, "r")
+       \/ ShadowWins(D, m, u, mt, rn, "r")
+    /\ \A s \in out.sel : ParamsOK(D, u, mt, s)
+    /\ gn \subseteq Names(own, "g")
+    /\ \/ gn = Names(wa, "g") \/ gn = Names(wo, "g")
+       \/ ShadowWins(D, m, u, mt, gn, "g")
     /\ \A s \in out.dsel : NormOK(D, u, mt, s)
     /\ LookupOK(D, u, mt, out.lk)
 
